@@ -343,3 +343,419 @@ Print Assumptions graph_cc_isolated.
 Print Assumptions graph_cc_nil.
 Print Assumptions refines_spec.
 Print Assumptions refines_components.
+
+(* ====================================================================== *)
+(* ---------- g. single linkage: cutting at t = components of the threshold graph ---------- *)
+From Coq Require Import Permutation Sorted.
+
+Lemma argmin_none {X : Type} (f : X -> nat) l : argmin f l = None -> l = [].
+Proof.
+  destruct l as [|x l]; [reflexivity|]. simpl.
+  destruct (argmin f l) as [y|]; [destruct (Nat.ltb (f y) (f x))|]; discriminate.
+Qed.
+
+Lemma argmin_spec {X : Type} (f : X -> nat) l x :
+  argmin f l = Some x -> In x l /\ forall y, In y l -> f x <= f y.
+Proof.
+  revert x. induction l as [|a l IH]; intros x H; simpl in H; [discriminate|].
+  destruct (argmin f l) as [y|] eqn:E.
+  - destruct (IH y eq_refl) as [Hin Hmin].
+    destruct (Nat.ltb_spec (f y) (f a)) as [Hlt|Hge]; injection H as <-.
+    + split; [right; exact Hin|]. intros z [<-|Hz]; [lia|apply Hmin; exact Hz].
+    + split; [left; reflexivity|]. intros z [<-|Hz]; [lia|]. specialize (Hmin z Hz). lia.
+  - injection H as <-. apply argmin_none in E. subst l.
+    split; [left; reflexivity|]. intros z [<-|[]]. lia.
+Qed.
+
+Lemma picks_perm {X : Type} (l : list X) x r : In (x, r) (picks l) -> Permutation l (x :: r).
+Proof.
+  revert x r. induction l as [|a l IH]; intros x r H; simpl in H; [contradiction|].
+  destruct H as [H|H].
+  - injection H as <- <-. apply Permutation_refl.
+  - apply in_map_iff in H. destruct H as ([y r'] & Heq & Hin). simpl in Heq. injection Heq as <- <-.
+    apply IH in Hin. eapply perm_trans; [apply perm_skip; exact Hin|apply perm_swap].
+Qed.
+
+Lemma picks_in {X : Type} (l : list X) x : In x l -> exists r, In (x, r) (picks l).
+Proof.
+  induction l as [|a l IH]; intros H; [contradiction|]. destruct H as [<-|H].
+  - exists l. left. reflexivity.
+  - destruct (IH H) as [r Hr]. exists (a :: r). right. apply in_map_iff.
+    exists (x, r). split; [reflexivity|exact Hr].
+Qed.
+
+Lemma pairs2_perm {X : Type} (l : list X) a b r : In (a, b, r) (pairs2 l) -> Permutation l (a :: b :: r).
+Proof.
+  unfold pairs2. intros H. apply in_flat_map in H. destruct H as ([x rx] & Hx & H). simpl in H.
+  apply in_map_iff in H. destruct H as ([y ry] & Heq & Hy). simpl in Heq. injection Heq as <- <- <-.
+  apply picks_perm in Hx. apply picks_perm in Hy.
+  eapply perm_trans; [exact Hx|]. apply perm_skip. exact Hy.
+Qed.
+
+Lemma pairs2_in {X : Type} (l : list X) a b :
+  In a l -> In b l -> a <> b -> exists r, In (a, b, r) (pairs2 l).
+Proof.
+  intros Ha Hb Hab. destruct (picks_in l a Ha) as [ra Hra].
+  assert (Hb' : In b ra).
+  { pose proof (picks_perm _ _ _ Hra) as P. apply (Permutation_in b P) in Hb.
+    destruct Hb as [Heq|Hb]; [congruence|exact Hb]. }
+  destruct (picks_in ra b Hb') as [rb Hrb]. exists rb. unfold pairs2. apply in_flat_map.
+  exists (a, ra). split; [exact Hra|]. simpl. apply in_map_iff.
+  exists (b, rb). split; [reflexivity|exact Hrb].
+Qed.
+
+Lemma cdist_le D A B a b : In a A -> In b B -> cdist D A B <= D a b.
+Proof.
+  intros Ha Hb. unfold cdist.
+  assert (Hab : In (a, b) (list_prod A B)) by (apply in_prod; assumption).
+  destruct (argmin (fun p => D (fst p) (snd p)) (list_prod A B)) as [p|] eqn:E.
+  - apply argmin_spec in E. destruct E as [_ Hmin]. apply (Hmin (a, b) Hab).
+  - apply argmin_none in E. rewrite E in Hab. contradiction.
+Qed.
+
+Lemma cdist_witness D A B : A <> [] -> B <> [] -> exists a b, In a A /\ In b B /\ cdist D A B = D a b.
+Proof.
+  intros HA HB. unfold cdist.
+  destruct (argmin (fun p => D (fst p) (snd p)) (list_prod A B)) as [[a b]|] eqn:E.
+  - apply argmin_spec in E. destruct E as [Hin _]. apply in_prod_iff in Hin.
+    exists a, b. simpl. tauto.
+  - apply argmin_none in E. destruct A as [|a A]; [congruence|]. destruct B as [|b B]; [congruence|].
+    assert (Hab : In (a, b) (list_prod (a :: A) (b :: B))) by (apply in_prod; left; reflexivity).
+    rewrite E in Hab. contradiction.
+Qed.
+
+(* --- state invariant: the clusters are a partition of 0..n-1 into non-empty blocks --- *)
+Definition in_cl (cl : list (list nat)) (a : nat) : Prop := exists C, In C cl /\ In a C.
+Definition same_cl (cl : list (list nat)) (a b : nat) : Prop := exists C, In C cl /\ In a C /\ In b C.
+Definition cl_inv (n : nat) (cl : list (list nat)) : Prop :=
+  (forall C, In C cl -> C <> []) /\ (forall u, u < n -> in_cl cl u) /\
+  (forall C u, In C cl -> In u C -> u < n) /\ NoDup (concat cl).
+(* points of different clusters are at distance >= lo *)
+Definition sep (D : nat -> nat -> nat) (cl : list (list nat)) (lo : nat) : Prop :=
+  forall a b, in_cl cl a -> in_cl cl b -> ~ same_cl cl a b -> lo <= D a b.
+
+Lemma perm_concat {X : Type} (l l' : list (list X)) : Permutation l l' -> Permutation (concat l) (concat l').
+Proof.
+  induction 1 as [|x l l' _ IH|x y l|l l' l'' _ IH1 _ IH2]; simpl.
+  - constructor.
+  - apply Permutation_app_head. exact IH.
+  - rewrite !app_assoc. apply Permutation_app_tail. apply Permutation_app_comm.
+  - eapply perm_trans; eassumption.
+Qed.
+
+Lemma NoDup_app_disj {X : Type} (l1 l2 : list X) x : NoDup (l1 ++ l2) -> In x l1 -> In x l2 -> False.
+Proof.
+  induction l1 as [|a l1 IH]; intros Hnd H1 H2; [contradiction|].
+  simpl in Hnd. inversion Hnd as [|a' l' Hnot Hnd']; subst. destruct H1 as [->|H1].
+  - apply Hnot. apply in_or_app. right. exact H2.
+  - apply IH; assumption.
+Qed.
+
+Lemma singletons_concat l : concat (map (fun i : nat => [i]) l) = l.
+Proof. induction l as [|a l IH]; simpl; [reflexivity|]. rewrite IH. reflexivity. Qed.
+
+Lemma singletons_same n a b : same_cl (singletons n) a b -> a = b.
+Proof.
+  intros (C & HC & Ha & Hb). unfold singletons in HC. apply in_map_iff in HC.
+  destruct HC as (i & <- & _). destruct Ha as [<-|[]]. destruct Hb as [<-|[]]. reflexivity.
+Qed.
+
+Lemma singletons_inv n : cl_inv n (singletons n).
+Proof.
+  unfold singletons. repeat split.
+  - intros C HC. apply in_map_iff in HC. destruct HC as (i & <- & _). discriminate.
+  - intros u Hu. exists [u]. split; [|left; reflexivity]. apply in_map_iff. exists u.
+    split; [reflexivity|]. apply in_seq. lia.
+  - intros C u HC Hu. apply in_map_iff in HC. destruct HC as (i & <- & Hi).
+    destruct Hu as [<-|[]]. apply in_seq in Hi. lia.
+  - rewrite singletons_concat. apply seq_NoDup.
+Qed.
+
+(* what one merge does to the invariant *)
+Lemma cl_inv_merge n cl A B r :
+  cl_inv n cl -> Permutation cl (A :: B :: r) -> cl_inv n ((A ++ B) :: r).
+Proof.
+  intros (Hne & Hcov & Hrng & Hnd) P.
+  assert (Hin : forall C, In C cl <-> A = C \/ B = C \/ In C r).
+  { intros C. split; intros H.
+    - apply (Permutation_in C P) in H. simpl in H. exact H.
+    - apply (Permutation_in C (Permutation_sym P)). simpl. exact H. }
+  repeat split.
+  - intros C [<-|HC].
+    + intros Heq. apply app_eq_nil in Heq. destruct Heq as [HA _]. apply (Hne A); [apply Hin; tauto|exact HA].
+    + apply Hne. apply Hin. tauto.
+  - intros u Hu. destruct (Hcov u Hu) as (C & HC & HuC). apply Hin in HC.
+    destruct HC as [<-|[<-|HC]].
+    + exists (A ++ B). split; [left; reflexivity|apply in_or_app; left; exact HuC].
+    + exists (A ++ B). split; [left; reflexivity|apply in_or_app; right; exact HuC].
+    + exists C. split; [right; exact HC|exact HuC].
+  - intros C u [<-|HC] HuC.
+    + apply in_app_or in HuC. destruct HuC as [H|H]; [apply (Hrng A)|apply (Hrng B)]; auto; apply Hin; tauto.
+    + apply (Hrng C); [apply Hin; tauto|exact HuC].
+  - apply perm_concat in P. simpl in P. simpl. rewrite <- app_assoc.
+    apply (Permutation_NoDup P). exact Hnd.
+Qed.
+
+Lemma same_cl_merge cl A B r a b :
+  Permutation cl (A :: B :: r) -> same_cl cl a b -> same_cl ((A ++ B) :: r) a b.
+Proof.
+  intros P (C & HC & Ha & Hb). apply (Permutation_in C P) in HC. destruct HC as [<-|[<-|HC]].
+  - exists (A ++ B). split; [left; reflexivity|]. split; apply in_or_app; left; assumption.
+  - exists (A ++ B). split; [left; reflexivity|]. split; apply in_or_app; right; assumption.
+  - exists C. split; [right; exact HC|]. split; assumption.
+Qed.
+
+Lemma in_cl_merge cl A B r a :
+  Permutation cl (A :: B :: r) -> in_cl ((A ++ B) :: r) a -> in_cl cl a.
+Proof.
+  intros P (C & HC & Ha). pose proof (Permutation_sym P) as P'. destruct HC as [<-|HC].
+  - apply in_app_or in Ha. destruct Ha as [Ha|Ha].
+    + exists A. split; [apply (Permutation_in A P'); left; reflexivity|exact Ha].
+    + exists B. split; [apply (Permutation_in B P'); right; left; reflexivity|exact Ha].
+  - exists C. split; [apply (Permutation_in C P'); right; right; exact HC|exact Ha].
+Qed.
+
+(* members of the two merged clusters were in different clusters *)
+Lemma merged_not_same n cl A B r a b :
+  cl_inv n cl -> Permutation cl (A :: B :: r) -> In a A -> In b B -> ~ same_cl cl a b.
+Proof.
+  intros (_ & _ & _ & Hnd) P Ha Hb (C & HC & HaC & HbC).
+  pose proof (Permutation_NoDup (perm_concat _ _ P) Hnd) as Hnd'. simpl in Hnd'.
+  apply (Permutation_in C P) in HC. destruct HC as [<-|[<-|HC]].
+  - apply (NoDup_app_disj A (B ++ concat r) b Hnd' HbC). apply in_or_app. left. exact Hb.
+  - apply (NoDup_app_disj A (B ++ concat r) a Hnd' Ha). apply in_or_app. left. exact HaC.
+  - apply (NoDup_app_disj A (B ++ concat r) a Hnd' Ha). apply in_or_app. right.
+    apply in_concat. exists C. split; assumption.
+Qed.
+
+Lemma sl_step_some D cl mh cl' : sl_step D cl = Some (mh, cl') ->
+  exists A B r, In (A, B, r) (pairs2 cl) /\ mh = (A ++ B, cdist D A B) /\ cl' = (A ++ B) :: r /\
+    forall A' B' r', In (A', B', r') (pairs2 cl) -> cdist D A B <= cdist D A' B'.
+Proof.
+  unfold sl_step. destruct (argmin (sl_key D) (pairs2 cl)) as [[[A B] r]|] eqn:E; [|discriminate].
+  simpl. intros H. injection H as <- <-. apply argmin_spec in E. destruct E as [Hin Hmin].
+  exists A, B, r. repeat split; auto. intros A' B' r' H'. apply (Hmin (A', B', r') H').
+Qed.
+
+Lemma sl_step_none D cl : sl_step D cl = None -> pairs2 cl = [].
+Proof.
+  unfold sl_step. destruct (argmin (sl_key D) (pairs2 cl)) as [abr|] eqn:E; [discriminate|].
+  intros _. apply argmin_none in E. exact E.
+Qed.
+
+(* the chosen height is a lower bound for every distance between points of different clusters *)
+Lemma step_height_min D cl A B :
+  (forall A' B' r', In (A', B', r') (pairs2 cl) -> cdist D A B <= cdist D A' B') ->
+  forall a b, in_cl cl a -> in_cl cl b -> ~ same_cl cl a b -> cdist D A B <= D a b.
+Proof.
+  intros Hmin a b (C1 & HC1 & Ha) (C2 & HC2 & Hb) Hns.
+  assert (Hne : C1 <> C2).
+  { intros ->. apply Hns. exists C2. tauto. }
+  destruct (pairs2_in cl C1 C2 HC1 HC2 Hne) as [r' Hr'].
+  specialize (Hmin _ _ _ Hr'). pose proof (cdist_le D C1 C2 a b Ha Hb). lia.
+Qed.
+
+(* heights never decrease: after a merge at height h every remaining inter-cluster distance is >= h *)
+Lemma sep_step n D cl lo A B r :
+  cl_inv n cl -> sep D cl lo -> In (A, B, r) (pairs2 cl) ->
+  (forall A' B' r', In (A', B', r') (pairs2 cl) -> cdist D A B <= cdist D A' B') ->
+  lo <= cdist D A B /\ sep D ((A ++ B) :: r) (cdist D A B).
+Proof.
+  intros Hinv Hsep Hin Hmin. pose proof (pairs2_perm _ _ _ _ Hin) as P.
+  pose proof Hinv as (Hne & _ & _ & _).
+  assert (HA : In A cl) by (apply (Permutation_in A (Permutation_sym P)); left; reflexivity).
+  assert (HB : In B cl) by (apply (Permutation_in B (Permutation_sym P)); right; left; reflexivity).
+  split.
+  - destruct (cdist_witness D A B (Hne A HA) (Hne B HB)) as (a0 & b0 & Ha0 & Hb0 & ->).
+    apply Hsep.
+    + exists A. tauto.
+    + exists B. tauto.
+    + apply (merged_not_same n cl A B r a0 b0 Hinv P Ha0 Hb0).
+  - intros a b Ha Hb Hns. apply (step_height_min D cl A B Hmin).
+    + apply (in_cl_merge cl A B r a P Ha).
+    + apply (in_cl_merge cl A B r b P Hb).
+    + intros Hs. apply Hns. apply (same_cl_merge cl A B r a b P Hs).
+Qed.
+
+Lemma threshold_graph_in n D t i j :
+  In (i, j) (threshold_graph n D t) <-> i < n /\ j < n /\ i <> j /\ D i j <= t.
+Proof.
+  unfold threshold_graph. rewrite filter_In, in_prod_iff, !in_seq. simpl.
+  rewrite andb_true_iff, negb_true_iff, Nat.eqb_neq, Nat.leb_le. lia.
+Qed.
+
+Lemma threshold_graph_mono n D t t' : t <= t' -> incl (threshold_graph n D t) (threshold_graph n D t').
+Proof.
+  intros Hle [i j] H. apply threshold_graph_in in H. apply threshold_graph_in. lia.
+Qed.
+
+Lemma star_connected M a b : In a M -> In b M -> connected (star M) a b.
+Proof.
+  destruct M as [|x l]; [contradiction|].
+  assert (H : forall y, In y (x :: l) -> connected (star (x :: l)) x y).
+  { intros y [<-|Hy]; [apply conn_refl|]. apply connected_edge. left. simpl. apply in_map_iff.
+    exists y. split; [reflexivity|exact Hy]. }
+  intros Ha Hb. eapply connected_trans; [apply connected_sym; apply H; exact Ha|apply H; exact Hb].
+Qed.
+
+Lemma star_in M a b : In (a, b) (star M) -> In a M /\ In b M.
+Proof.
+  destruct M as [|x l]; [contradiction|]. simpl. intros H. apply in_map_iff in H.
+  destruct H as (y & Heq & Hy). injection Heq as <- <-. auto.
+Qed.
+
+(* replacing every edge by a path *)
+Lemma connected_via E E' u v :
+  (forall a b, In (a, b) E -> connected E' a b) -> connected E u v -> connected E' u v.
+Proof.
+  intros H. induction 1 as [u|u v w Huv IH Hedge]; [apply conn_refl|].
+  eapply connected_trans; [exact IH|]. destruct Hedge as [Hin|Hin].
+  - apply H. exact Hin.
+  - apply connected_sym. apply H. exact Hin.
+Qed.
+
+(* --- soundness and monotone heights --- *)
+Lemma sl_sound n D : forall fuel cl lo,
+  cl_inv n cl ->
+  (forall a b, same_cl cl a b -> connected (threshold_graph n D lo) a b) ->
+  sep D cl lo ->
+  forall M h, In (M, h) (sl_run fuel D cl) ->
+    lo <= h /\ (forall a, In a M -> a < n) /\
+    (forall a b, In a M -> In b M -> connected (threshold_graph n D h) a b).
+Proof.
+  induction fuel as [|f IH]; intros cl lo Hinv Hconn Hsep M h HM; simpl in HM; [contradiction|].
+  destruct (sl_step D cl) as [[mh cl']|] eqn:E; [|contradiction]. simpl in HM.
+  apply sl_step_some in E. destruct E as (A & B & r & Hin & -> & -> & Hmin).
+  pose proof (pairs2_perm _ _ _ _ Hin) as P.
+  destruct (sep_step n D cl lo A B r Hinv Hsep Hin Hmin) as [Hlo Hsep'].
+  pose proof (cl_inv_merge n cl A B r Hinv P) as Hinv'.
+  set (h0 := cdist D A B) in *.
+  pose proof Hinv as (Hne & _ & Hrng & _).
+  assert (HA : In A cl) by (apply (Permutation_in A (Permutation_sym P)); left; reflexivity).
+  assert (HB : In B cl) by (apply (Permutation_in B (Permutation_sym P)); right; left; reflexivity).
+  assert (Hmono : incl (threshold_graph n D lo) (threshold_graph n D h0)) by (apply threshold_graph_mono; exact Hlo).
+  (* the new cluster is connected at its own height *)
+  assert (HconnM : forall a b, In a (A ++ B) -> In b (A ++ B) -> connected (threshold_graph n D h0) a b).
+  { destruct (cdist_witness D A B (Hne A HA) (Hne B HB)) as (a0 & b0 & Ha0 & Hb0 & Hh0). fold h0 in Hh0.
+    assert (H0 : connected (threshold_graph n D h0) a0 b0).
+    { destruct (Nat.eq_dec a0 b0) as [->|Hab]; [apply conn_refl|]. apply connected_edge. left.
+      apply threshold_graph_in. repeat split; [apply (Hrng A)|apply (Hrng B)| |]; auto. lia. }
+    assert (Hto : forall x, In x (A ++ B) -> connected (threshold_graph n D h0) a0 x).
+    { intros x Hx. apply in_app_or in Hx. destruct Hx as [Hx|Hx].
+      - apply (connected_incl _ _ _ _ Hmono). apply Hconn. exists A. tauto.
+      - eapply connected_trans; [exact H0|]. apply (connected_incl _ _ _ _ Hmono). apply Hconn. exists B. tauto. }
+    intros a b Ha Hb. eapply connected_trans; [apply connected_sym; apply Hto; exact Ha|apply Hto; exact Hb]. }
+  destruct HM as [HM|HM].
+  - injection HM as <- <-. split; [exact Hlo|]. split; [|exact HconnM].
+    intros a Ha. destruct Hinv' as (_ & _ & Hrng' & _). apply (Hrng' (A ++ B)); [left; reflexivity|exact Ha].
+  - assert (Hconn' : forall a b, same_cl ((A ++ B) :: r) a b -> connected (threshold_graph n D h0) a b).
+    { intros a b (C & [<-|HC] & Ha & Hb).
+      - apply HconnM; assumption.
+      - apply (connected_incl _ _ _ _ Hmono). apply Hconn. exists C.
+        split; [apply (Permutation_in C (Permutation_sym P)); right; right; exact HC|tauto]. }
+    destruct (IH _ h0 Hinv' Hconn' Hsep' M h HM) as (H1 & H2 & H3).
+    split; [lia|]. split; assumption.
+Qed.
+
+Theorem single_linkage_heights_sorted n D : StronglySorted le (map snd (single_linkage n D)).
+Proof.
+  unfold single_linkage.
+  assert (G : forall fuel cl lo, cl_inv n cl -> sep D cl lo ->
+              Forall (le lo) (map snd (sl_run fuel D cl)) /\ StronglySorted le (map snd (sl_run fuel D cl))).
+  { induction fuel as [|f IH]; intros cl lo Hinv Hsep; simpl; [split; constructor|].
+    destruct (sl_step D cl) as [[mh cl']|] eqn:E; [|split; constructor]. simpl.
+    apply sl_step_some in E. destruct E as (A & B & r & Hin & -> & -> & Hmin).
+    pose proof (pairs2_perm _ _ _ _ Hin) as P.
+    destruct (sep_step n D cl lo A B r Hinv Hsep Hin Hmin) as [Hlo Hsep'].
+    destruct (IH _ _ (cl_inv_merge n cl A B r Hinv P) Hsep') as [HF HS]. simpl. split.
+    - constructor; [exact Hlo|]. eapply Forall_impl; [|exact HF]. intros x Hx. simpl in Hx. lia.
+    - constructor; assumption. }
+  apply (G n (singletons n) 0 (singletons_inv n)). intros a b _ _ _. lia.
+Qed.
+
+(* --- completeness --- *)
+Lemma sl_complete n D t : forall fuel cl E0,
+  length cl <= fuel -> cl_inv n cl ->
+  (forall a b, same_cl cl a b -> connected E0 a b) ->
+  forall u v, u < n -> v < n -> D u v <= t ->
+  connected (E0 ++ cut_edges t (sl_run fuel D cl)) u v.
+Proof.
+  induction fuel as [|f IH]; intros cl E0 Hlen Hinv Hconn u v Hu Hv Hd.
+  - destruct cl; [|simpl in Hlen; lia]. destruct Hinv as (_ & Hcov & _). destruct (Hcov u Hu) as (C & [] & _).
+  - pose proof Hinv as (_ & Hcov & _ & _).
+    destruct (Hcov u Hu) as (C1 & HC1 & Hu1). destruct (Hcov v Hv) as (C2 & HC2 & Hv2).
+    assert (Hsame : C1 = C2 -> connected E0 u v).
+    { intros ->. apply Hconn. exists C2. tauto. }
+    simpl. destruct (sl_step D cl) as [[mh cl']|] eqn:E.
+    + apply sl_step_some in E. destruct E as (A & B & r & Hin & -> & -> & Hmin).
+      pose proof (pairs2_perm _ _ _ _ Hin) as P. simpl.
+      destruct (Nat.leb_spec (cdist D A B) t) as [Hle|Hgt].
+      * rewrite app_assoc. apply IH; auto.
+        -- apply Permutation_length in P. simpl in P. simpl. lia.
+        -- apply (cl_inv_merge n cl A B r Hinv P).
+        -- intros a b (C & [<-|HC] & Ha & Hb).
+           ++ apply (connected_incl (star (A ++ B))); [apply incl_appr, incl_refl|]. apply star_connected; assumption.
+           ++ apply (connected_incl E0); [apply incl_appl, incl_refl|]. apply Hconn. exists C.
+              split; [apply (Permutation_in C (Permutation_sym P)); right; right; exact HC|tauto].
+      * simpl. apply (connected_incl E0); [apply incl_appl, incl_refl|].
+        destruct (list_eq_dec Nat.eq_dec C1 C2) as [Heq|Hne]; [apply Hsame; exact Heq|exfalso].
+        destruct (pairs2_in cl C1 C2 HC1 HC2 Hne) as [r' Hr'].
+        specialize (Hmin _ _ _ Hr'). pose proof (cdist_le D C1 C2 u v Hu1 Hv2). lia.
+    + apply sl_step_none in E. simpl. rewrite app_nil_r.
+      destruct (list_eq_dec Nat.eq_dec C1 C2) as [Heq|Hne]; [apply Hsame; exact Heq|exfalso].
+      destruct (pairs2_in cl C1 C2 HC1 HC2 Hne) as [r' Hr']. rewrite E in Hr'. contradiction.
+Qed.
+
+Lemma cut_edges_in t dendro a b :
+  In (a, b) (cut_edges t dendro) -> exists M h, In (M, h) dendro /\ h <= t /\ In a M /\ In b M.
+Proof.
+  unfold cut_edges. intros H. apply in_flat_map in H. destruct H as ([M h] & HM & H). simpl in H.
+  destruct (Nat.leb_spec h t) as [Hle|Hgt]; [|contradiction].
+  apply star_in in H. exists M, h. tauto.
+Qed.
+
+Lemma sl_cut_edges_ok n D t : edges_ok n (cut_edges t (single_linkage n D)).
+Proof.
+  unfold edges_ok. apply Forall_forall. intros [a b] H. apply cut_edges_in in H.
+  destruct H as (M & h & HM & _ & Ha & Hb). unfold single_linkage in HM.
+  destruct (sl_sound n D n (singletons n) 0 (singletons_inv n)) with (M := M) (h := h) as (_ & Hrng & _); auto.
+  - intros x y Hs. apply singletons_same in Hs. subst. apply conn_refl.
+  - intros x y _ _ _. lia.
+Qed.
+
+(* MAIN: cutting the single-linkage dendrogram at t gives the components of the threshold graph *)
+Theorem single_linkage_cut n D t u v :
+  u < n -> v < n ->
+  (nth u (sl_cut n D t) 0 = nth v (sl_cut n D t) 0 <-> connected (threshold_graph n D t) u v).
+Proof.
+  intros Hu Hv. unfold sl_cut.
+  rewrite (components_spec n _ u v (sl_cut_edges_ok n D t) Hu Hv). split.
+  - apply connected_via. intros a b H. apply cut_edges_in in H.
+    destruct H as (M & h & HM & Hle & Ha & Hb). unfold single_linkage in HM.
+    destruct (sl_sound n D n (singletons n) 0 (singletons_inv n)) with (M := M) (h := h) as (_ & _ & Hc); auto.
+    + intros x y Hs. apply singletons_same in Hs. subst. apply conn_refl.
+    + intros x y _ _ _. lia.
+    + apply (connected_incl _ _ _ _ (threshold_graph_mono n D h t Hle)). apply Hc; assumption.
+  - apply connected_via. intros a b H. apply threshold_graph_in in H. destruct H as (Ha & Hb & _ & Hd).
+    apply (sl_complete n D t n (singletons n) [] ); auto.
+    + unfold singletons. rewrite map_length, seq_length. lia.
+    + apply singletons_inv.
+    + intros x y Hs. apply singletons_same in Hs. subst. apply conn_refl.
+Qed.
+
+(* two edge lists with the same (undirected) edges have the same connectivity *)
+Lemma connected_same_edges E E' u v :
+  (forall a b, In (a, b) E <-> In (a, b) E') -> (connected E u v <-> connected E' u v).
+Proof.
+  intros H. split; apply connected_incl; intros [a b] Hin; apply H; exact Hin.
+Qed.
+
+Example single_linkage_ex :
+  let D := mat_dist [[0;1;5;6];[1;0;2;7];[5;2;0;9];[6;7;9;0]] in
+  single_linkage 4 D = [([0;1], 1); ([0;1;2], 2); ([0;1;2;3], 6)] /\
+  sl_cut 4 D 0 = [0;1;2;3] /\ sl_cut 4 D 1 = [0;0;2;3] /\ sl_cut 4 D 2 = [0;0;0;3] /\ sl_cut 4 D 6 = [0;0;0;0] /\
+  threshold_graph 4 D 1 = [(0,1);(1,0)].
+Proof. vm_compute. repeat split. Qed.
+
+Print Assumptions single_linkage_cut.
+Print Assumptions single_linkage_heights_sorted.
